@@ -264,6 +264,9 @@ impl BuiltInFunction {
                     call_stack: Rc<RefCell<Stack>>,
                     filter_result: GcVector,
                     index: Cell<i32>,
+                    /// the element handed to the callback; it is the one kept, whatever the
+                    /// callback does to the list in the meantime
+                    current: RefCell<Option<Primitive>>,
                 }
 
                 impl FilterOp {
@@ -279,6 +282,7 @@ impl BuiltInFunction {
                             filter_result: GcVector::default(),
                             underlying,
                             index: Cell::new(0),
+                            current: RefCell::new(None),
                         }
                     }
                 }
@@ -289,6 +293,7 @@ impl BuiltInFunction {
                         self.index.set(this_index + 1);
                         let underlying = self.underlying.0.borrow();
                         let this_value: Primitive = underlying[this_index as usize].clone();
+                        *self.current.borrow_mut() = Some(this_value.clone());
 
                         Ok(JumpRequest {
                             destination: JumpRequestDestination::Standard(
@@ -310,10 +315,12 @@ impl BuiltInFunction {
                             _ => false,
                         };
 
+                        let current = self.current.borrow_mut().take();
+
                         if keep {
-                            let underlying = self.underlying.0.borrow();
-                            let this_index: usize = (self.index.get() - 1).try_into()?;
-                            result.push(underlying[this_index].clone());
+                            if let Some(current) = current {
+                                result.push(current);
+                            }
                         }
 
                         Ok(<i32 as TryInto<usize>>::try_into(self.index.get())?
